@@ -92,6 +92,9 @@ def plan(tier, seed):
     alpha = ['a', 'b', 'c'] if tier == 'quick' else ['a', 'b', 'c', 'd']
     tasks.append(('replay_step', {'alphabet': alpha}))
     tasks.append(('replay_step', {'alphabet': alpha[:3], 'reorder': True, 'two_sessions': True}))
+    tasks.append(('replay_step', {'alphabet': ['e', 'a', 'b']}))      # a line with multi-byte characters (byte vs char offsets)
+    for kind in ('regular', 'symlink', 'gitlink', 'tree'):
+        tasks.append(('blob_mode', {'kind': kind}))
     nb = 3 if tier == 'quick' else 4
     for kinds in ([['blob', 0]], [['blob', nb]], [['missing', 0], ['blob', 2]], [['blob', 2], ['blob', 2]], [['blob', 1], ['missing', 0], ['blob', 0]], [['blob', nb], ['blob', 1]]):
         tasks.append(('blob_reader', {'kinds': kinds}))
@@ -191,7 +194,7 @@ RA = 'authorship::rebase_authorship'
 VAS = 'authorship::virtual_attribution::VirtualAttributions'
 ATTR = 'authorship::attribution_tracker::Attribution'
 LATTR = 'authorship::attribution_tracker::LineAttribution'
-LINES = {'a': b'a1\n', 'b': b'b2\n', 'c': b'c3\n', 'd': b'd4\n'}
+LINES = {'a': b'a1\n', 'b': b'b2\n', 'c': b'c3\n', 'd': b'd4\n', 'e': '\u00e95\u6f22\n'.encode('utf-8')}
 
 
 def _text(seq):
@@ -330,11 +333,43 @@ def ob_blob_reader(h, shape):
     h.sample = h.witness()
 
 
-OBLIGATIONS = {'inert': ob_inert, 'shift': ob_shift, 'replay_step': ob_replay_step, 'blob_reader': ob_blob_reader}
+def ob_blob_mode(h, shape):
+    """K4b: which tree entries have content to replay: every regular file whatever its permission bits (100644,
+    100755, the historical 100664) and symbolic links (120000); never a gitlink (160000) or a tree (040000)"""
+    P = h.P
+    P.state['c02_open'] = True
+    kind = shape['kind']
+    if kind == 'regular':
+        perm = [h.byte('p%d' % i, lo=48, hi=55) for i in range(3)]
+        mode = list(b'100') + perm
+        want = True
+    else:
+        mode = list({'symlink': b'120000', 'gitlink': b'160000', 'tree': b'040000'}[kind])
+        want = kind == 'symlink'
+    h.inputs_struct = {'mode': ByteStr(mode)}
+    try:
+        r = P.call_named(RA + '::is_blob_mode', [mk_str(mode)])
+    except Panic as e:
+        h.panic('K4-mode-no-panic', e.msg)
+        return
+    got = r.v if r.concrete else r.z()
+    h.require(got if want else (z3.Not(got) if not isinstance(got, bool) else not got), 'K4-files-of-every-permission-and-symlinks-have-content',
+              'mode %s is treated as %s content' % (kind, 'without' if want else 'with'))
+    h.sample = h.witness()
+
+
+OBLIGATIONS = {'inert': ob_inert, 'shift': ob_shift, 'replay_step': ob_replay_step, 'blob_reader': ob_blob_reader, 'blob_mode': ob_blob_mode}
 MUST_COVER = ['K3-restored-from-original', 'K3-carried-by-diff']
 
 
 def replay(v, native):
+    if 'mode' in v['inputs']:
+        r = native('c02_blob_mode', v['inputs'])
+        if 'panic' in r:
+            return {'reproduced': v['kind'] == 'panic', 'native': r}
+        m = bytes_of_json(v['inputs']['mode']).decode()
+        want = m.startswith('100') or m == '120000'
+        return {'reproduced': r.get('is_blob') != want, 'native': r}
     if 'running' in v['inputs']:
         inp = v['inputs']
         r = native('c02_replay_step', inp)
